@@ -185,6 +185,10 @@ func init() {
 				}
 				files = append(files, b.String())
 			}
+			if r.coin(1, 5) {
+				// an included file (include.path, relative to the including file): its entries are listed in place
+				files[0] += "[include]\n\tpath = extra.cfg\n" + genCfgFileStanza(r)
+			}
 			cmdline := ""
 			if r.coin(1, 3) {
 				cmdline = []string{"refgroup.cmd.include=refs/cmd", "refgroup.mine.exclude=refs/x", "foo.bar"}[r.n(3)]
@@ -210,6 +214,7 @@ func init() {
 				return []string{"setup-failed"}
 			}
 			os.WriteFile(filepath.Join(dir, "global"), unhx(in[0]), 0o644)
+			os.WriteFile(filepath.Join(dir, "extra.cfg"), []byte("[refgroup \"included\"]\n\tinclude = refs/included\n[refgroup \"mine\"]\n\texclude = refs/heads/inc\n\tname\n"), 0o644)
 			f, _ := os.OpenFile(filepath.Join(gitDir, "config"), os.O_APPEND|os.O_WRONLY, 0o644)
 			f.Write(unhx(in[1]))
 			f.Close()
